@@ -588,4 +588,25 @@ theorem fvScaleW_pointwise (sp x : List Nat) (fv : FV) (w : List Rat) (hx : Vali
     field_simp
     ring
 
+/-! ## non-vacuity: the hypotheses of the pointwise theorems are met by concrete overlapping bases (tests on literals) -/
+
+def exSp : List Nat := [2, 3, 2]
+def exL : BF := ⟨[0, 1], [1, 2, 3, 4, 5, 6]⟩
+def exR : BF := ⟨[1, 2], [10, 20, 30, 40, 50, 60]⟩
+def exBig : BF := ⟨[0, 1, 2], [0, 1, 2, 3, 4, 5, 6, 7, 8, 9, 10, 11]⟩
+
+example : Valid exSp [1, 2, 0] := (validB_iff _ _).mp (by decide)
+example : exL.WF exSp ∧ exR.WF exSp ∧ exBig.WF exSp :=
+  ⟨⟨⟨by decide, by decide⟩, by decide⟩, ⟨⟨by decide, by decide⟩, by decide⟩, ⟨⟨by decide, by decide⟩, by decide⟩⟩
+example : FV.WF exSp [exL, exR] := by
+  intro b hb
+  simp at hb
+  rcases hb with rfl | rfl
+  · exact ⟨⟨by decide, by decide⟩, by decide⟩
+  · exact ⟨⟨by decide, by decide⟩, by decide⟩
+/-- a merge really happens: `exL.tag ⊆ exBig.tag` is detected by the scan -/
+example : sortedContains exBig.tag exL.tag = true ∧ sortedContains exL.tag exR.tag = false := by
+  constructor <;> simp [sortedContains, containsScan, exBig, exL, exR]
+example : exL.get exSp [1, 2, 0] = 6 ∧ exR.get exSp [1, 2, 0] = 30 := by decide
+
 end AITB.Factored
